@@ -604,13 +604,13 @@ def decide_trees(ctx, meta, results, failed_rules, stream, hist_tags, hist_depth
         rec = vtree.totuple(job["recipe"])
         base = {"kind": "tree", "stream": stream, "recipe": job["recipe"], "shown": vx.show_recipe(rec), "nv": job["nv"], "ns": job["ns"],
             "nf": job.get("nf", 0), "mode": job["mode"], "rank": job["rank"], "spread": job.get("spread"), "spread_seed": job.get("spread_seed"),
-            "same_name": job.get("same_name"), "nfun2": job.get("nfun2"), "order": job.get("order"),
+            "same_name": job.get("same_name"), "nfun2": job.get("nfun2"), "order": job.get("order"), "orders": job.get("orders"),
             "twice_form": job.get("twice_form"), "hashseed": r.get("hashseed", 0), "fired": r.get("fired"),
             "output": r.get("out_str")}
         if r["status"] == "recursion":
             cls = classify_recursion(r["cycle"])
-            ctx.violation(f"C14:diff:nontermination:{cls}" if job["mode"] in ("diff", "diff2", "partial") else f"C14:nontermination:{cls}",
-                f"{'differentiating' + (' twice' if job['mode'] == 'diff2' else '') if job['mode'] in ('diff', 'diff2', 'partial') else 'building'} "
+            ctx.violation(f"C14:diff:nontermination:{cls}" if job["mode"] in ("diff", "diff2", "partial", "diffn") else f"C14:nontermination:{cls}",
+                f"{'differentiating' + (' twice' if job['mode'] == 'diff2' else '') if job['mode'] in ('diff', 'diff2', 'partial', 'diffn') else 'building'} "
                 f"{vx.show_recipe(rec)} does not terminate "
                 f"(RecursionError through {', '.join(r['cycle'])})", {**base, "observed": "RecursionError", "cycle": r["cycle"],
                 "expected": "a value", "theorem_or_tie": "termination of the constructors / of .diff()"}, True)
@@ -647,7 +647,7 @@ def decide_trees(ctx, meta, results, failed_rules, stream, hist_tags, hist_depth
                 # with the reported rule repaired, the same tree runs into the (separately reported) non-termination
                 cls = classify_recursion(r2["cycle"])
                 attributed += 1
-                ctx.violation(f"C14:diff:nontermination:{cls}" if job["mode"] in ("diff", "diff2", "partial") else f"C14:nontermination:{cls}",
+                ctx.violation(f"C14:diff:nontermination:{cls}" if job["mode"] in ("diff", "diff2", "partial", "diffn") else f"C14:nontermination:{cls}",
                     f"{vx.show_recipe(rec)} does not terminate (RecursionError through {', '.join(r2['cycle'])})",
                     {**base, "observed": "RecursionError", "cycle": r2["cycle"], "expected": "a value"}, True)
                 continue
@@ -699,7 +699,8 @@ def embed(r) -> str:
     if t == "vsym":
         return f"(PSym v{r[1]})"
     if t == "vfun":
-        return f"(PFun (fun n _ => match n with O => f{r[1]} | S O => df{r[1]} | _ => ddf{r[1]} end) 0)"
+        return (f"(PFun (fun n _ => match n with O => f{r[1]} | 1%nat => df{r[1]} | 2%nat => ddf{r[1]} | 3%nat => f{r[1]}_d3 "
+                f"| 4%nat => f{r[1]}_d4 | _ => f{r[1]}_d5 end) 0)")
     if t == "vzero":
         return "(PSym vzero)"
     if t == "vadd":
@@ -735,16 +736,18 @@ def diff_spec_lemmas(ctx, meta):
     Model/VecDiff.v, about which diff_terminates_and_leibniz is proved"""
     lemmas = []
     for jid, job in meta.items():
-        if job["mode"] == "partial":
+        if job["mode"] == "partial" or (job["mode"] == "diffn" and set(job["orders"]) != {"t"}):
             continue                  # Model/VecDiff.v has one parameter
         rec = vtree.totuple(job["recipe"])
         atoms = {"v": set(range(job["nv"])), "s": set(range(job["ns"])), "f": set(range(job.get("nf", 0))), "par": True}
-        twice = job["mode"] == "diff2"
-        spec = vx.diff_recipe(vx.diff_recipe(rec)) if twice else vx.diff_recipe(rec)
-        if vx.is_vec(rec):
-            lhs = f"pval_v (Dv (Dv {embed(rec)})) t" if twice else f"pval_v (Dv {embed(rec)}) t"
-        else:
-            lhs = f"pval_s (Ds (Ds {embed(rec)})) t" if twice else f"pval_s (Ds {embed(rec)}) t"
+        order = {"diff": 1, "diff2": 2}.get(job["mode"]) or len(job["orders"])
+        spec = rec
+        inner = embed(rec)
+        for _ in range(order):
+            spec = vx.diff_recipe(spec)
+            inner = f"(Dv {inner})" if vx.is_vec(rec) else f"(Ds {inner})"
+        atoms["high"] = True          # the embedding of a vector function names its derivatives up to order 5
+        lhs = f"pval_v {inner} t" if vx.is_vec(rec) else f"pval_s {inner} t"
         lemmas.append(coqrun.Lemma(f"dspec_{jid}", f"forall {vx.binder(atoms)}, {lhs} = {vx.coq_of_recipe(spec)}",
             "intros. cbn [pval_s pval_v Ds Dv]. cbv beta iota. timeout 60 v3_finish.", vx.show_recipe(rec)))
     res = coqrun.prove_lemmas(ctx, "dspec", DSPEC_PREAMBLE, lemmas, per_file=20, timeout=600)
@@ -816,10 +819,27 @@ def layer_diff(ctx, failed_rules):
                 meta[jid] = job
                 distinct.add(("partial", order, form, rec))
                 jid += 1
+    # derivatives of order 3 and 4 (also in two variables) requested in ONE call: diff(t, 3), diff(t, t, t), diff(t, 2, u)
+    nfam = [("dot", F(0), F(1)), ("cross", F(0), F(1)), ("dot", F(0), F(0)), ("dot", F(0), ("vscale", P, V(0))), ("cross", F(0), ("vscale", P, V(0))),
+        ("smul", P, ("dot", F(0), F(1))), ("vscale", P, ("cross", F(1), F(0))), ("mixed", F(0), F(1), V(0)), ("mixed", F(0), F(1), F(2)),
+        ("cross", F(0), ("cross", F(1), V(0))), ("smul", ("dot", F(0), V(0)), ("dot", F(1), V(1))), ("sadd", ("dot", F(0), F(1)), ("smul", P, P)),
+        ("dot", ("vadd", F(0), ("vscale", P, F(1))), F(1))]
+    gfam = [("dot", G(0), G(1)), ("cross", G(0), G(1)), ("dot", G(0), ("vscale", U, V(0))), ("mixed", G(0), G(1), V(0)), ("dot", F(0), G(0))]
+    for rec, orders_list in [(r_, (["t"] * 3, ["t"] * 4)) for r_ in nfam] + [(r_, (["t", "t", "u"], ["t", "u", "u"], ["u", "t", "t"])) for r_ in gfam]:
+        for orders in orders_list:
+            for form in ("count", "repeat"):
+                job = {"id": jid, "recipe": rec, "nv": 2, "ns": 2, "nf": 3, "nfun2": 2, "mode": "diffn", "orders": orders, "twice_form": form,
+                    "rank": all_ranks(2, rng, 1)[0], "same_name": rng.random() < 0.2,
+                    "envs": [vtree.rand_env(rng, 2, 2, 3, nf2=2).to_json() for _ in range(4)]}
+                jobs.append(job)
+                meta[jid] = job
+                distinct.add(("diffn", tuple(orders), form, rec))
+                jid += 1
     results = {r["id"]: r for r in run_jobs(jobs)}
     for r in results.values():
         r["hashseed"] = 0
     decide_trees(ctx, meta, results, failed_rules, "diff", hist_tags, hist_depth, len(distinct))
+    ctx.coverage["streams"]["diff"]["higher_order_single_call_builds"] = sum(1 for j in meta.values() if j["mode"] == "diffn")
     ctx.coverage["streams"]["diff"]["mixed_partial_builds"] = sum(1 for j in meta.values() if j["mode"] == "partial")
     ctx.coverage["streams"]["diff"]["second_derivative_builds"] = sum(1 for j in meta.values() if j["mode"] == "diff2")
     diff_spec_lemmas(ctx, meta)
